@@ -10,7 +10,7 @@
 //!     (oracle: must decode, and re-encode to the same bytes); `-` otherwise.
 //! Output: `ok <re-encoding> lossy=<-|p|a>` / `incomplete` (EOF error) / `invalid` / `panic:<msg>`.
 //!   `p`: decoded a ping/pong whose padding has a non-zero byte; `a`: decoded a node announcement whose
-//!   re-encoding differs from the input (user agent absent or cut short, defaulted); re-encoding `!` when
+//!   re-encoding differs from the input (user agent absent, defaulted); re-encoding `!` when
 //!   `wire::serialize` panics on the decoded message.
 
 mod wiregen;
